@@ -160,6 +160,16 @@ TH.EXTRA.update({
         CNTRV(z3.Store(_qs, _qx, True), _qr, _qn) == CNTRV(_qs, _qr, _qn) + z3.If(z3.And(_ksize(_qx) == _qn, _qr[DK.mk(DK.snd(_qx), DK.fst(_qx))]), 1, 0)),
         patterns=[CNTRV(z3.Store(_qs, _qx, True), _qr, _qn)]),
 })
+# cnt_in(S, P, s): members of the set S of size s that belong to the set P (P is given by a set comprehension over the keys)
+CNTIN = z3.Function("cnt_in_d", z3.ArraySort(DK.sort(), T.B), z3.ArraySort(DK.sort(), T.B), T.I, T.I)
+TH.EXTRA.update({
+    "cnt_in_d_empty (definition)": z3.ForAll([_qr, _qn], CNTIN(z3.K(DK.sort(), z3.BoolVal(False)), _qr, _qn) == 0,
+                                             patterns=[CNTIN(z3.K(DK.sort(), z3.BoolVal(False)), _qr, _qn)]),
+    "cnt_in_d_step (definition)": z3.ForAll([_qs, _qr, _qx, _qn], z3.Implies(z3.Not(_qs[_qx]),
+        CNTIN(z3.Store(_qs, _qx, True), _qr, _qn) == CNTIN(_qs, _qr, _qn) + z3.If(z3.And(_ksize(_qx) == _qn, _qr[_qx]), 1, 0)),
+        patterns=[CNTIN(z3.Store(_qs, _qx, True), _qr, _qn)]),
+})
+VIEWS["cnt_in"] = lambda eng, p, h, S, P, s: T.sv_int(CNTIN((S.dom if isinstance(S.ty, T.Map) else S.t), P.t, eng.coerce(s, T.INT).t))
 VIEWS["cnt_size"] = lambda eng, p, h, B, s: T.sv_int(CNTSZ(B.t, eng.coerce(s, T.INT).t))
 VIEWS["cnt_rev"] = lambda eng, p, h, S, R, s: T.sv_int(CNTRV((S.dom if isinstance(S.ty, T.Map) else S.t), (R.dom if isinstance(R.ty, T.Map) else R.t), eng.coerce(s, T.INT).t))
 
@@ -626,6 +636,59 @@ CONTRACTS = [
           2: {"rec_dom": "all((s in rec) == (2 <= s and s <= max_hyperedge_size) for s in Int)",
               "done": "all(implies(2 <= s and s < _j2, rec[s] == (real(cnt_rev(hypergraph, edge_set, edge_set, s)) / real(tot[s]) if tot[s] != 0 else 0)) for s in rec)",
               "todo": "all(implies(_j2 <= s, rec[s] == real(cnt_rev(hypergraph, edge_set, edge_set, s))) for s in rec)"}}),
+    # strong reciprocity: a hyperedge counts when every one of its sources is a target of some in-range hyperedge that has one of its targets
+    # as a source ("every source is reached from its targets"); counts and quotient as for exact_reciprocity
+    Contract("strong_reciprocity", "hypergraphx/measures/directed/reciprocity.py", ["strong_reciprocity"], properties=["C12"],
+      params={"hypergraph": "Obj[DirectedHypergraph]", "max_hyperedge_size": "Int"}, result="Map[Int,Real]", pure=True,
+      locals={"rec": "Map[Int,Real]", "tot": "Map[Int,Int]", "edge_set": "Map[Pair[Tup,Tup],Int]", "edges": "Bag[Pair[Tup,Tup]]",
+              "node_reach": "Map[Int,Set[Int]]", "covered": "Set[Int]"},
+      requires={"wf": "wf(hypergraph)"},
+      ensures={
+          "dom": "all((s in result) == (2 <= s and s <= max_hyperedge_size) for s in Int)",
+          "val": 'all(implies(2 <= s and s <= max_hyperedge_size, result[s] == (real(cnt_in(hypergraph, local("edge_set"), {k for k in Key if all(any(t in snd(k) and any(k2 in E(hypergraph) and (2 <= len(fst(k2)) + len(snd(k2)) and len(fst(k2)) + len(snd(k2)) <= max_hyperedge_size) and t in fst(k2) and n in snd(k2) for k2 in Key) for t in Node) for n in fst(k))}, s)) / real(cnt_size(hypergraph, listing(E(hypergraph)), s)) '
+                 'if cnt_size(hypergraph, listing(E(hypergraph)), s) != 0 else 0)) for s in Int)',
+          "edge_set": 'all((k in local("edge_set")) == (k in E(hypergraph) and (2 <= len(fst(k)) + len(snd(k)) and len(fst(k)) + len(snd(k)) <= max_hyperedge_size)) for k in Key)'},
+      invariants={
+          0: {"rec": "all((s in rec) == (2 <= s and s <= max_hyperedge_size) for s in Int) and all(rec[s] == 0 for s in rec)",
+              "tot_dom": "all((s in tot) == (2 <= s and s <= max_hyperedge_size) for s in Int)",
+              "tot": "all(tot[s] == cnt_size(hypergraph, _done0, s) for s in tot)",
+              "edge_set": "all((k in edge_set) == (count(_done0, k) >= 1 and (2 <= len(fst(k)) + len(snd(k)) and len(fst(k)) + len(snd(k)) <= max_hyperedge_size)) for k in Key)",
+              "nr_dom": "all((n in node_reach) == any((count(_done0, k) >= 1 and (2 <= len(fst(k)) + len(snd(k)) and len(fst(k)) + len(snd(k)) <= max_hyperedge_size)) and n in fst(k) for k in Key) for n in Node)",
+              "nr_val": "all(implies(n in node_reach, (x in node_reach[n]) == any((count(_done0, k) >= 1 and (2 <= len(fst(k)) + len(snd(k)) and len(fst(k)) + len(snd(k)) <= max_hyperedge_size)) and n in fst(k) and x in snd(k) for k in Key)) for n in Node for x in Node)"},
+          1: {"nr_dom": "all((n in node_reach) == (any((count(_done0, k) >= 1 and (2 <= len(fst(k)) + len(snd(k)) and len(fst(k)) + len(snd(k)) <= max_hyperedge_size)) and n in fst(k) for k in Key) or inprefix(n, _it1, _j1)) for n in Node)",
+              "nr_val": "all(implies(n in node_reach, (x in node_reach[n]) == (any((count(_done0, k) >= 1 and (2 <= len(fst(k)) + len(snd(k)) and len(fst(k)) + len(snd(k)) <= max_hyperedge_size)) and n in fst(k) and x in snd(k) for k in Key) or (inprefix(n, _it1, _j1) and x in snd(edge)))) for n in Node for x in Node)"},
+          2: {"rec_dom": "all((s in rec) == (2 <= s and s <= max_hyperedge_size) for s in Int)",
+              "rec": "all(rec[s] == real(cnt_in(hypergraph, _done2, {k for k in Key if all(any(t in snd(k) and any(k2 in E(hypergraph) and (2 <= len(fst(k2)) + len(snd(k2)) and len(fst(k2)) + len(snd(k2)) <= max_hyperedge_size) and t in fst(k2) and n in snd(k2) for k2 in Key) for t in Node) for n in fst(k))}, s)) for s in rec)"},
+          3: {"covered": "all((x in covered) == any(inprefix(t, _it3, _j3) and t in node_reach and x in node_reach[t] for t in Node) for x in Node)"},
+          4: {"rec_dom": "all((s in rec) == (2 <= s and s <= max_hyperedge_size) for s in Int)",
+              "done": "all(implies(2 <= s and s < _j4, rec[s] == (real(cnt_in(hypergraph, edge_set, {k for k in Key if all(any(t in snd(k) and any(k2 in E(hypergraph) and (2 <= len(fst(k2)) + len(snd(k2)) and len(fst(k2)) + len(snd(k2)) <= max_hyperedge_size) and t in fst(k2) and n in snd(k2) for k2 in Key) for t in Node) for n in fst(k))}, s)) / real(tot[s]) if tot[s] != 0 else 0)) for s in rec)",
+              "todo": "all(implies(_j4 <= s, rec[s] == real(cnt_in(hypergraph, edge_set, {k for k in Key if all(any(t in snd(k) and any(k2 in E(hypergraph) and (2 <= len(fst(k2)) + len(snd(k2)) and len(fst(k2)) + len(snd(k2)) <= max_hyperedge_size) and t in fst(k2) and n in snd(k2) for k2 in Key) for t in Node) for n in fst(k))}, s))) for s in rec)"}}),
+    # weak reciprocity: a hyperedge counts when for some source i and some target j of it, j is a source and i a target of one in-range hyperedge
+    Contract("weak_reciprocity", "hypergraphx/measures/directed/reciprocity.py", ["weak_reciprocity"], properties=["C12"], options={"int_pairs"},
+      params={"hypergraph": "Obj[DirectedHypergraph]", "max_hyperedge_size": "Int"}, result="Map[Int,Real]", pure=True,
+      locals={"rec": "Map[Int,Real]", "tot": "Map[Int,Int]", "edge_set": "Map[Pair[Tup,Tup],Int]", "edges": "Bag[Pair[Tup,Tup]]",
+              "bin_edges": "Map[Pair[Int,Int],Int]", "is_reciprocated": "Bool"},
+      requires={"wf": "wf(hypergraph)"},
+      ensures={
+          "dom": "all((s in result) == (2 <= s and s <= max_hyperedge_size) for s in Int)",
+          "val": 'all(implies(2 <= s and s <= max_hyperedge_size, result[s] == (real(cnt_in(hypergraph, local("edge_set"), {k for k in Key if any(i in fst(k) and any(j in snd(k) and any(k2 in E(hypergraph) and (2 <= len(fst(k2)) + len(snd(k2)) and len(fst(k2)) + len(snd(k2)) <= max_hyperedge_size) and j in fst(k2) and i in snd(k2) for k2 in Key) for j in Node) for i in Node)}, s)) / real(cnt_size(hypergraph, listing(E(hypergraph)), s)) '
+                 'if cnt_size(hypergraph, listing(E(hypergraph)), s) != 0 else 0)) for s in Int)',
+          "edge_set": 'all((k in local("edge_set")) == (k in E(hypergraph) and (2 <= len(fst(k)) + len(snd(k)) and len(fst(k)) + len(snd(k)) <= max_hyperedge_size)) for k in Key)'},
+      invariants={
+          0: {"rec": "all((s in rec) == (2 <= s and s <= max_hyperedge_size) for s in Int) and all(rec[s] == 0 for s in rec)",
+              "tot_dom": "all((s in tot) == (2 <= s and s <= max_hyperedge_size) for s in Int)",
+              "tot": "all(tot[s] == cnt_size(hypergraph, _done0, s) for s in tot)",
+              "edge_set": "all((k in edge_set) == (count(_done0, k) >= 1 and (2 <= len(fst(k)) + len(snd(k)) and len(fst(k)) + len(snd(k)) <= max_hyperedge_size)) for k in Key)",
+              "bin": "all((pair(a, b) in bin_edges) == (any((count(_done0, k) >= 1 and (2 <= len(fst(k)) + len(snd(k)) and len(fst(k)) + len(snd(k)) <= max_hyperedge_size)) and a in fst(k) and b in snd(k) for k in Key)) for a in Node for b in Node)"},
+          1: {"bin": "all((pair(a, b) in bin_edges) == (any((count(_done0, k) >= 1 and (2 <= len(fst(k)) + len(snd(k)) and len(fst(k)) + len(snd(k)) <= max_hyperedge_size)) and a in fst(k) and b in snd(k) for k in Key) or (inprefix(a, _it1, _j1) and b in target)) for a in Node for b in Node)"},
+          2: {"bin": "all((pair(a, b) in bin_edges) == (any((count(_done0, k) >= 1 and (2 <= len(fst(k)) + len(snd(k)) and len(fst(k)) + len(snd(k)) <= max_hyperedge_size)) and a in fst(k) and b in snd(k) for k in Key) or (inprefix(a, _it1, _j1) and b in target) or (a == i and inprefix(b, _it2, _j2))) for a in Node for b in Node)"},
+          3: {"rec_dom": "all((s in rec) == (2 <= s and s <= max_hyperedge_size) for s in Int)",
+              "rec": "all(rec[s] == real(cnt_in(hypergraph, _done3, {k for k in Key if any(i in fst(k) and any(j in snd(k) and any(k2 in E(hypergraph) and (2 <= len(fst(k2)) + len(snd(k2)) and len(fst(k2)) + len(snd(k2)) <= max_hyperedge_size) and j in fst(k2) and i in snd(k2) for k2 in Key) for j in Node) for i in Node)}, s)) for s in rec)"},
+          4: {"flag": "not is_reciprocated", "norev": "all(implies(inprefix(a, _it4, _j4) and b in target and k2 in E(hypergraph) and (2 <= len(fst(k2)) + len(snd(k2)) and len(fst(k2)) + len(snd(k2)) <= max_hyperedge_size) and b in fst(k2), a not in snd(k2)) for a in Node for b in Node for k2 in Key)"},
+          5: {"flag": "not is_reciprocated", "norev": "all(implies(inprefix(b, _it5, _j5) and k2 in E(hypergraph) and (2 <= len(fst(k2)) + len(snd(k2)) and len(fst(k2)) + len(snd(k2)) <= max_hyperedge_size) and b in fst(k2), i not in snd(k2)) for b in Node for k2 in Key)"},
+          6: {"rec_dom": "all((s in rec) == (2 <= s and s <= max_hyperedge_size) for s in Int)",
+              "done": "all(implies(2 <= s and s < _j6, rec[s] == (real(cnt_in(hypergraph, edge_set, {k for k in Key if any(i in fst(k) and any(j in snd(k) and any(k2 in E(hypergraph) and (2 <= len(fst(k2)) + len(snd(k2)) and len(fst(k2)) + len(snd(k2)) <= max_hyperedge_size) and j in fst(k2) and i in snd(k2) for k2 in Key) for j in Node) for i in Node)}, s)) / real(tot[s]) if tot[s] != 0 else 0)) for s in rec)",
+              "todo": "all(implies(_j6 <= s, rec[s] == real(cnt_in(hypergraph, edge_set, {k for k in Key if any(i in fst(k) and any(j in snd(k) and any(k2 in E(hypergraph) and (2 <= len(fst(k2)) + len(snd(k2)) and len(fst(k2)) + len(snd(k2)) <= max_hyperedge_size) and j in fst(k2) and i in snd(k2) for k2 in Key) for j in Node) for i in Node)}, s))) for s in rec)"}}),
     # ------------------------------------------------------------------ hypergraphx/measures/directed/degree.py (C12)
     Contract("in_degree", "hypergraphx/measures/directed/degree.py", ["in_degree"], properties=["C12"],
       params={"hypergraph": "Obj[DirectedHypergraph]", "node": "Node", "order": "Opt[Int]", "size": "Opt[Int]"}, result="Int", pure=True,
